@@ -268,6 +268,8 @@ def check(run):
         "interleaved_writes": (tot.get("interleaves", 0), 50),
         "rejected_at_verify": (tot.get("reject_at_verify", 0), 100),
         "rejected_at_dotx": (tot.get("reject_at_dotx", 0), 5),
+        # the window of Chain.SubmitTx: verified before another client's write landed, DoTx after it
+        "submissions_verified_before_the_interleaved_write": (tot.get("early_verified_submissions", 0), 50),
         # every projection reads the keys a second time on a node that has only the stored data (no warm version cache)
         "cache_free_reads": (tot.get("cold_reads", 0), 10000 if quick else 100000),
         "reads_on_reopened_copy": (tot.get("reopened_reads", 0), 1000 if quick else 10000),
